@@ -47,18 +47,18 @@ def exhaustive_table(quick):
     """(label, base cfg, constant overrides) of the exhaustive design-spec runs."""
     t = [
         ("v0_cache0", "C12_v0.cfg", {"CacheSize": 0}),
-        ("v0_cache1_rich", "C12_v0.cfg", {"Txs": ABCD, "CacheSize": 1, "MaxBlock": 2, "Gases": [1, 2],
-                                          "PreLimits": [3], "PostLimits": [1]}),
+        ("v0_cache1_rich", "C12_v0.cfg", {"Txs": ABCD, "CacheSize": 1, "Gases": [1, 2], "PreLimits": [3], "PostLimits": [1]}),
         ("v0_cache2", "C12_v0.cfg", {"CacheSize": 2}),
-        ("v0_keepinvalid_norecheck", "C12_v0.cfg", {"CacheSize": 1, "KeepInvalid": True, "Recheck": False,
-                                                    "Peers": [1, 2]}),
         ("v1_evict_cache3", "C12_v1.cfg", {"CacheSize": 3, "MaxHeight": 0}),
-        ("v1_cache1", "C12_v1.cfg", {"Txs": AB, "CacheSize": 1, "MaxHeight": 1}),
-        ("v1_ttl_recheck", "C12_v1.cfg", {"Txs": AB, "CacheSize": 2, "MaxHeight": 2, "TTL": 1, "Senders": [""],
-                                          "MaxInflight": 1}),
+        ("v1_cache1", "C12_v1.cfg", {"Txs": AB, "CacheSize": 1, "MaxHeight": 1, "Senders": [""]}),
     ]
     if not quick:
         t += [
+            ("v1_cache1_senders", "C12_v1.cfg", {"Txs": AB, "CacheSize": 1, "MaxHeight": 1}),
+            ("v0_cache1_block2", "C12_v0.cfg", {"Txs": ABCD, "CacheSize": 1, "MaxBlock": 2, "Gases": [1, 2],
+                                                "PreLimits": [3], "PostLimits": [1]}),
+            ("v0_keepinvalid_norecheck", "C12_v0.cfg", {"CacheSize": 1, "KeepInvalid": True, "Recheck": False,
+                                                        "Peers": [1, 2]}),
             ("v0_4tx_size3_cache1", "C12_v0.cfg", {"Txs": ABCD, "Size": 3, "MaxTxsBytes": 5, "MaxTxBytes": 3,
                                                    "CacheSize": 1, "MaxHeight": 3, "Gases": [1, 2]}),
             ("v0_4tx_size3_cache0", "C12_v0.cfg", {"Txs": ABCD, "Size": 3, "MaxTxsBytes": 5, "MaxTxBytes": 3,
@@ -67,6 +67,8 @@ def exhaustive_table(quick):
                                                    "CacheSize": 2, "MaxHeight": 2}),
             ("v0_cache6_block2", "C12_v0.cfg", {"Txs": ABCD, "CacheSize": 6, "MaxBlock": 2, "MaxHeight": 3,
                                                 "Peers": [1, 2]}),
+            ("v1_ttl_recheck", "C12_v1.cfg", {"Txs": AB, "CacheSize": 2, "MaxHeight": 2, "TTL": 1, "Senders": [""],
+                                              "MaxInflight": 1}),
             ("v1_cache1_3tx", "C12_v1.cfg", {"CacheSize": 1, "Senders": [""], "MaxHeight": 1}),
             ("v1_cache0_depth9", "C12_v1.cfg", {"Txs": AB, "CacheSize": 0, "MaxHeight": 1, "MaxDepth": 9}),
             ("v1_cache2_senders", "C12_v1.cfg", {"Txs": AB, "CacheSize": 2, "MaxHeight": 1, "Gases": [1, 2],
@@ -140,6 +142,44 @@ def act_to_step(a):
     return None
 
 
+REAPS = ("ReapMaxTxs", "ReapMaxBytesMaxGas")
+
+
+def merged_schedules(g):
+    """One schedule per leaf of the BFS tree of the act-augmented graph (every node = every
+    distinct (action, arguments, result state) is executed), except that the reap leaves under
+    one parent -- reaps do not change the state -- are executed one after the other at the end
+    of a single schedule instead of re-executing the path for each.  Returns lists of node ids
+    (the first one is the initial node)."""
+    paths = g.bfs_paths()
+    children = {}
+    for nid, p in paths.items():
+        if p:
+            children.setdefault(g.edges[p[-1]][0], []).append(nid)
+
+    def nodes_of(nid):
+        p = paths[nid]
+        return ([g.edges[p[0]][0]] if p else [nid]) + [g.edges[k][1] for k in p]
+
+    def reap_leaf(n):
+        return n not in children and g.nodes[n]["act"].get("name") in REAPS
+    out = []
+    for nid in paths:
+        kids = children.get(nid, [])
+        reaps = [k for k in kids if reap_leaf(k)]
+        if reaps:
+            out.append(nodes_of(nid) + reaps)
+        elif not kids and paths[nid] and not reap_leaf(nid):
+            out.append(nodes_of(nid))
+    covered = set()
+    for sc in out:
+        covered.update(sc)
+    missing = set(paths) - covered
+    if missing:
+        raise Undecided("graph schedules do not cover %d nodes" % len(missing))
+    return out
+
+
 def to_sync(steps):
     """The same schedule for the synchronous local ABCI client: every admit is answered at once
     (with the verdict its response step carries), rechecks are answered inside Update."""
@@ -167,11 +207,8 @@ def to_sync(steps):
     return out
 
 
-def run_tlc_table(ctx, jobs, pool=2, workers=4):
-    """jobs: list of callables returning a result; run `pool` at a time."""
-    with ThreadPoolExecutor(max_workers=pool) as ex:
-        futs = [ex.submit(j) for j in jobs]
-        return [f.result() for f in futs]
+POOL = 4          # TLC processes at a time ...
+WORKERS = 2       # ... with this many workers each (8 in total)
 
 
 def build_runs(ctx, quick):
@@ -179,67 +216,35 @@ def build_runs(ctx, quick):
     info = {"exhaustive": [], "weak": {}, "graphs": {}, "sims": {}, "attack_schedules": 0}
     tmo = 900 if quick else 2400
     ctx.spec_copy()          # before any thread: the copy is not thread-safe
+    skip = set(filter(None, os.environ.get("C12_DEV_SKIP", "").split(",")))   # development only -> exit 2
+    info["dev_skip"] = sorted(skip)
+
+    ex = ThreadPoolExecutor(max_workers=POOL)
 
     # ---- 1. exhaustive design-spec runs ---------------------------------------------------
     def exh(label, base, over):
         def job():
             cfg = core.cfg_variant(ctx, base, "C12_run_%s.cfg" % label, {k: tla(v) for k, v in over.items()})
-            return label, ctx.tlc("C12_mc", cfg, must_pass=True, timeout=tmo, workers=4, label=label, heap="4g")
+            return label, ctx.tlc("C12_mc", cfg, must_pass=True, timeout=tmo, workers=WORKERS, label=label, heap="4g")
         return job
-    res = run_tlc_table(ctx, [exh(*e) for e in exhaustive_table(quick)])
-    for label, r in res:
-        info["exhaustive"].append({"cfg": label, "distinct": r.distinct, "generated": r.generated, "depth": r.depth})
 
     # ---- 2. non-vacuity: every weakened spec is refuted; counterexamples become schedules -----
     def weak(cfg, inv, version):
         def job():
-            return cfg, inv, ctx.tlc("C12_mc", cfg, timeout=600, workers=2, label=cfg[4:-4], heap="2g")
+            return cfg, inv, ctx.tlc("C12_mc", cfg, timeout=600, workers=1, label=cfg[4:-4], heap="2g")
         return job
-    attack = {"v0": [], "v1": []}
-    for cfg, inv, r in run_tlc_table(ctx, [weak(*w) for w in WEAK], pool=3):
-        hit = [v for v in r.violations if v["name"] == inv]
-        if not hit or r.errors or r.timed_out:
-            ctx.save_log(cfg, r.out)
-            raise Undecided("vacuity: %s does not violate %s" % (cfg, inv))
-        info["weak"][cfg[4:-4]] = inv
-        steps = [act_to_step(s["act"]) for _h, s in hit[0]["trace"] if s.get("act", {}).get("name") != "Init"]
-        steps = [s for s in steps if s]
-        c = read_consts(ctx, cfg)
-        # the dangerous schedule, followed by the observations that make its effect visible
-        tail = [{"op": "ReapMaxTxs", "n": 1}, {"op": "ReapMaxTxs", "n": 0}, {"op": "ReapMaxBytesMaxGas", "b": -1, "g": -1},
-                {"op": "Update", "txs": [steps[-1].get("tx", "a")], "oks": [True], "npre": -2, "npost": -2}]
-        attack[c["version"]].append({"cfg": c, "mode": "async", "steps": steps + tail, "src": "attack:" + cfg[4:-4]})
-        attack[c["version"]].append({"cfg": c, "mode": "sync", "steps": to_sync(steps + tail), "src": "attack-sync:" + cfg[4:-4]})
-        info["attack_schedules"] += 2
 
-    runs = {"v0": list(attack["v0"]), "v1": list(attack["v1"])}
-
-    # ---- 3. act-augmented state graphs -> one schedule per BFS-tree leaf ----------------------
     def graph(label, base, over):
         def job():
             cfg = core.cfg_variant(ctx, base, "C12_run_%s.cfg" % label, {k: tla(v) for k, v in over.items()})
             dot = os.path.join(ctx.work, label + ".dot")
-            r = ctx.tlc("C12_mc", cfg, dump=["dot,actionlabels", dot], must_pass=True, timeout=tmo, workers=4,
+            r = ctx.tlc("C12_mc", cfg, dump=["dot,actionlabels", dot], must_pass=True, timeout=tmo, workers=WORKERS,
                         label=label, heap="4g")
             g = core.parse_dot(dot)
             os.remove(dot)
             return label, cfg, r, g
         return job
-    for label, cfg, r, g in run_tlc_table(ctx, [graph(*e) for e in replay_table(quick)]):
-        c = read_consts(ctx, cfg)
-        scheds = core.graph_schedules(g)
-        nsteps = 0
-        for k, nodes in enumerate(scheds):
-            steps = [act_to_step(g.nodes[nid]["act"]) for nid in nodes[1:]]
-            steps = [s for s in steps if s]
-            nsteps += len(steps)
-            runs[c["version"]].append({"cfg": c, "mode": "async", "steps": steps, "src": label})
-            if k % 4 == 0:
-                runs[c["version"]].append({"cfg": c, "mode": "sync", "steps": to_sync(steps), "src": label + "-sync"})
-        info["graphs"][label] = {"states": len(g.nodes), "edges": len(g.edges), "schedules": len(scheds),
-                                 "steps": nsteps, "distinct": r.distinct, "generated": r.generated}
 
-    # ---- 4. simulation on larger constants ---------------------------------------------------
     def sim(label, base, over, n):
         def job():
             cfg = core.cfg_variant(ctx, base, "C12_run_%s.cfg" % label, {k: tla(v) for k, v in over.items()},
@@ -263,7 +268,59 @@ def build_runs(ctx, quick):
                     behs.append([s for _h, s in beh])
             return label, cfg, r, behs
         return job
-    for label, cfg, r, behs in run_tlc_table(ctx, [sim(*e) for e in sim_table(quick)]):
+
+    # everything TLC has to do is independent: one pool, longest jobs first
+    f_exh = [ex.submit(exh(*e)) for e in exhaustive_table(quick) if "exh" not in skip]
+    f_graph = [ex.submit(graph(*e)) for e in replay_table(quick) if "graph" not in skip]
+    f_sim = [ex.submit(sim(*e)) for e in sim_table(quick) if "sim" not in skip]
+    f_weak = [ex.submit(weak(*w)) for w in WEAK if "weak" not in skip]
+    try:
+        res_exh = [f.result() for f in f_exh]
+        res_graph = [f.result() for f in f_graph]
+        res_sim = [f.result() for f in f_sim]
+        res_weak = [f.result() for f in f_weak]
+    finally:
+        ex.shutdown(wait=True, cancel_futures=True)
+
+
+    for label, r in res_exh:
+        info["exhaustive"].append({"cfg": label, "distinct": r.distinct, "generated": r.generated, "depth": r.depth})
+    attack = {"v0": [], "v1": []}
+    for cfg, inv, r in res_weak:
+        hit = [v for v in r.violations if v["name"] == inv]
+        if not hit or r.errors or r.timed_out:
+            ctx.save_log(cfg, r.out)
+            raise Undecided("vacuity: %s does not violate %s" % (cfg, inv))
+        info["weak"][cfg[4:-4]] = inv
+        steps = [act_to_step(s["act"]) for _h, s in hit[0]["trace"] if s.get("act", {}).get("name") != "Init"]
+        steps = [s for s in steps if s]
+        c = read_consts(ctx, cfg)
+        # the dangerous schedule, followed by the observations that make its effect visible
+        tail = [{"op": "ReapMaxTxs", "n": 1}, {"op": "ReapMaxTxs", "n": 0}, {"op": "ReapMaxBytesMaxGas", "b": -1, "g": -1},
+                {"op": "Update", "txs": [steps[-1].get("tx", "a")], "oks": [True], "npre": -2, "npost": -2}]
+        attack[c["version"]].append({"cfg": c, "mode": "async", "steps": steps + tail, "src": "attack:" + cfg[4:-4]})
+        attack[c["version"]].append({"cfg": c, "mode": "sync", "steps": to_sync(steps + tail), "src": "attack-sync:" + cfg[4:-4]})
+        info["attack_schedules"] += 2
+
+    runs = {"v0": list(attack["v0"]), "v1": list(attack["v1"])}
+
+    # ---- 3. act-augmented state graphs -> one schedule per BFS-tree leaf ----------------------
+    for label, cfg, r, g in res_graph:
+        c = read_consts(ctx, cfg)
+        scheds = merged_schedules(g)
+        nsteps = 0
+        for k, nodes in enumerate(scheds):
+            steps = [act_to_step(g.nodes[nid]["act"]) for nid in nodes[1:]]
+            steps = [s for s in steps if s]
+            nsteps += len(steps)
+            runs[c["version"]].append({"cfg": c, "mode": "async", "steps": steps, "src": label})
+            if k % 4 == 0:
+                runs[c["version"]].append({"cfg": c, "mode": "sync", "steps": to_sync(steps), "src": label + "-sync"})
+        info["graphs"][label] = {"states": len(g.nodes), "edges": len(g.edges), "schedules": len(scheds),
+                                 "steps": nsteps, "distinct": r.distinct, "generated": r.generated}
+
+    # ---- 4. simulation on larger constants ---------------------------------------------------
+    for label, cfg, r, behs in res_sim:
         c = read_consts(ctx, cfg)
         nsteps = 0
         for k, beh in enumerate(behs):
@@ -314,8 +371,8 @@ def run(ctx):
         rows0, summ0 = f0.result()
         rows1, summ1 = f1.result()
 
-    v0 = core.validate_traces(ctx, "TMMempoolTrace", rows0, label="v0", max_events=4000, timeout=1500)
-    v1 = core.validate_traces(ctx, "TMMempoolTrace", rows1, label="v1", max_events=4000, timeout=1500)
+    v0 = core.validate_traces(ctx, "TMMempoolTrace", rows0, label="v0", max_events=6000, timeout=1500)
+    v1 = core.validate_traces(ctx, "TMMempoolTrace", rows1, label="v1", max_events=6000, timeout=1500)
 
     verdict = core.Verdict(ctx)
     for ver, vv in (("v0", v0), ("v1", v1)):
@@ -386,6 +443,8 @@ def run(ctx):
         "known_findings_reproduced": dict(verdict.known),
     }
     rc = verdict.finish()
+    if info["dev_skip"]:
+        raise Undecided("development mode (C12_DEV_SKIP=%s): parts of the check were skipped" % ",".join(info["dev_skip"]))
     ctx.write_evidence(coverage, [
         "the asynchronous ABCI connection is a scripted client with the socket client's observable semantics (FIFO, global "
         "callback then request callback); the synchronous one is the real abcicli local client over a scripted application",
